@@ -41,5 +41,10 @@ pub fn autoplay(millis: u64) {
             None => break,
         };
         game.push_history(next_move);
+        // Same limit as the UCI position command: the state stack holds 512 plies
+        if game.len() >= 400 {
+            println!("Game became too long");
+            break;
+        }
     }
 }
